@@ -112,7 +112,8 @@ def derive_stream(chk, n):
         def f():
             return None
         f.__name__ = "dv%d" % i
-        base.append(plugins.component()(f))
+        # dependencies are hashable KEYS, not only components: two of the eight are plain strings (like "metadata.json")
+        base.append(plugins.component()(f) if i < 6 else "dv%d.key" % i)
     ids = dict((c, i) for i, c in enumerate(base))
 
     def items(k):
